@@ -29,7 +29,7 @@ def run(c):
     txnlib.run_driver(c, binp, "seq", cfg)
     btraces += [("seq/" + n, h, e) for n, h, e in conclib.load_backend(cfg["backend_out"])]
     gf = _txncfg.gen(c, "f", MaxTxns=3, MaxOps=10, Keys=10, Slots=[2, 4], Rollbacks=False)
-    cfgf = _txncfg.cfg(c, "fault", c.pick(2, 10), gf, max_fault=c.pick(12, 0), backend_out=os.path.join(c.scratch, "fault-backend.ndjson"))
+    cfgf = _txncfg.cfg(c, "fault", c.pick(2, 10), gf, max_fault=c.pick(12, 0), directed_max=c.pick(16, 0), backend_out=os.path.join(c.scratch, "fault-backend.ndjson"))
     txnlib.run_driver(c, binp, "fault", cfgf, timeout=c.pick(600, 3000))
     btraces += [("fault/" + n, h, e) for n, h, e in conclib.load_backend(cfgf["backend_out"])]
     for wl, txns in (("mixed", 3), ("disjoint", 3)):
